@@ -106,13 +106,14 @@ func cast(v string, t reflect.Type) (interface{}, error) {
 		reflect.Int8,
 		reflect.Int16,
 		reflect.Int32,
-		reflect.Int64,
-		reflect.Uint,
+		reflect.Int64:
+		return castInt(v, t)
+	case reflect.Uint,
 		reflect.Uint8,
 		reflect.Uint16,
 		reflect.Uint32,
 		reflect.Uint64:
-		return castInt(v, t)
+		return castUint(v, t)
 	case reflect.Float32,
 		reflect.Float64:
 		return castFloat(v, t)
@@ -148,16 +149,28 @@ func castInt(v string, t reflect.Type) (interface{}, error) {
 		return int32(intV), nil
 	case reflect.Int64:
 		return int64(intV), nil
+	}
+
+	return nil, ErrUnsupportedKind
+}
+
+func castUint(v string, t reflect.Type) (interface{}, error) {
+	uintV, err := strconv.ParseUint(v, 0, t.Bits())
+	if err != nil {
+		return nil, fmt.Errorf("'%s' cast to %s failed: %w", v, t, ErrCantCastVariableToTargetType)
+	}
+
+	switch t.Kind() {
 	case reflect.Uint:
-		return uint(intV), nil
+		return uint(uintV), nil
 	case reflect.Uint8:
-		return uint8(intV), nil
+		return uint8(uintV), nil
 	case reflect.Uint16:
-		return uint16(intV), nil
+		return uint16(uintV), nil
 	case reflect.Uint32:
-		return uint32(intV), nil
+		return uint32(uintV), nil
 	case reflect.Uint64:
-		return uint64(intV), nil
+		return uint64(uintV), nil
 	}
 
 	return nil, ErrUnsupportedKind
